@@ -33,8 +33,35 @@ class MethodMixin(object):
             return "conn"
         return None
 
+    PATH_METHODS = {"exists": "os.path.exists", "rename": "os.rename",
+                    "replace": "os.replace", "unlink": "os.unlink",
+                    "is_file": "os.path.isfile", "is_dir": "os.path.isdir",
+                    "touch": "open", "write_text": "open", "write_bytes": "open",
+                    "rmdir": "os.rmdir", "mkdir": "os.mkdir", "chmod": "os.chmod",
+                    "stat": "os.stat", "read_bytes": "read", "read_text": "read",
+                    "open": "open", "resolve": "os.path.abspath",
+                    "absolute": "os.path.abspath"}
+
     def call_method(self, recv, name, args, kwargs, state, frame, node):
         k = recv[0]
+        if recv in self.__dict__.get("path_typed", ()):
+            # pathlib methods are the os / os.path functions on the same path
+            if name == "with_name" and len(args) == 1:
+                v = ("call", "os.path.join",
+                     (("call", "os.path.dirname", (recv,), ()), args[0]), ())
+                self.path_typed.add(v)
+                return [(state, v)]
+            if name in ("joinpath",) and args:
+                v = ("call", "os.path.join", (recv,) + tuple(args), ())
+                self.path_typed.add(v)
+                return [(state, v)]
+            if name in self.PATH_METHODS:
+                res = self.call_external(self.PATH_METHODS[name], [recv] + list(args),
+                                         kwargs, state, frame, node)
+                if name in ("resolve", "absolute"):
+                    for (_, v) in res:
+                        self.path_typed.add(v)
+                return res
         if k == "dictlit" and name == "get" and args and not is_const(args[0]) and \
                 recv[1] and all(is_const(kk) for kk, _ in recv[1]) and len(recv[1]) <= 24:
             # TABLE.get(x) with a literal-keyed table: one branch per key
